@@ -13,6 +13,8 @@ import (
 	"sort"
 	"sync"
 	"testing"
+	"testing/synctest"
+	"time"
 
 	"github.com/named-data/ndnd/fw/core"
 	"github.com/named-data/ndnd/fw/defn"
@@ -48,12 +50,12 @@ type Case struct {
 	MTU       int      `json:"mtu"`
 	MTU0      int      `json:"mtu0,omitempty"`     // >0: the face is created with this MTU, which is then changed to MTU (faces/update does that)
 	LateOpts  bool     `json:"lateopts,omitempty"` // the options are applied with SetOptions after creation with the defaults
-	Frag      bool     `json:"frag"`              // sender: IsFragmentationEnabled
-	InFaceInd bool     `json:"ifi,omitempty"`     // sender: IsIncomingFaceIndicationEnabled
-	LocalCong bool     `json:"lcong,omitempty"`   // sender's queue is congested: it adds its own mark
-	Warmed    bool     `json:"warmed,omitempty"`  // the face has carried > 64 KiB before: the sender looks at its (idle) queue when the first packet goes out
-	RxThreads int      `json:"rxt"`               // forwarding threads at the receiver
-	RxLocal   bool     `json:"rxlocal,omitempty"` // receiver face has local scope
+	Frag      bool     `json:"frag"`               // sender: IsFragmentationEnabled
+	InFaceInd bool     `json:"ifi,omitempty"`      // sender: IsIncomingFaceIndicationEnabled
+	LocalCong bool     `json:"lcong,omitempty"`    // sender's queue is congested: it adds its own mark
+	Warmed    bool     `json:"warmed,omitempty"`   // the face has carried > 64 KiB before: the sender looks at its (idle) queue when the first packet goes out
+	RxThreads int      `json:"rxt"`                // forwarding threads at the receiver
+	RxLocal   bool     `json:"rxlocal,omitempty"`  // receiver face has local scope
 	Msgs      []Msg    `json:"msgs"`
 	Mode      string   `json:"mode"`           // id | rev | rr | keys
 	Keys      []uint32 `json:"keys,omitempty"` // mode keys: frames are fed in stable order of Keys[i%len]
@@ -69,6 +71,13 @@ type Case struct {
 	// service that has been up long enough gets there; seeded C10-r6-2 rejected fragments whose
 	// sequence number is smaller than their index)
 	SeqBack uint64 `json:"seqback,omitempty"`
+	// Gaps non-empty: virtual milliseconds that pass before each frame reaches the receiver (cycled).
+	// Gaps are short (<= 60 ms) and many: a message with many fragments is under reassembly for
+	// seconds while others begin and complete. No reassembly timeout an implementation may reasonably
+	// have (NFD's is 500 ms after the LAST fragment of that message) is entitled to drop a message
+	// whose fragments keep arriving every few milliseconds. (Seeded C10-r9-2 measured the timeout from
+	// the moment any message last began.)
+	Gaps []int `json:"gaps,omitempty"`
 }
 
 // ---------------------------------------------------------------------------- set-up
@@ -262,7 +271,18 @@ func markStr(a *uint64) string {
 
 // ---------------------------------------------------------------------------- exec
 
+// bubbleT is the test whose bubble the cases with Gaps run in (virtual time).
+var bubbleT *testing.T
+
 func execC10(c Case) (res evid.Result) {
+	if len(c.Gaps) == 0 || bubbleT == nil {
+		return runC10(c)
+	}
+	synctest.Test(bubbleT, func(*testing.T) { res = runC10(c) })
+	return res
+}
+
+func runC10(c Case) (res evid.Result) {
 	setup()
 	var sink []delivery
 	resetGlobals(c.RxThreads, &sink)
@@ -573,7 +593,13 @@ func execC10(c Case) (res evid.Result) {
 	}
 
 	if len(c.Stream) == 0 {
+		if len(c.Gaps) > 0 && bubbleT != nil {
+			cls["time-passes-between-frames"] = true
+		}
 		for pos, v := range ord {
+			if len(c.Gaps) > 0 && bubbleT != nil {
+				time.Sleep(time.Duration(c.Gaps[pos%len(c.Gaps)]) * time.Millisecond)
+			}
 			var perr error
 			func() {
 				defer func() {
@@ -815,6 +841,9 @@ func genCase(t *rapid.T) Case {
 	if rapid.IntRange(0, 3).Draw(t, "viaStream") == 0 {
 		c.Stream = rapid.SliceOfN(rapid.SampledFrom([]int{1, 3, 7, 50, 100, 127, 1000, 1500, 8800, -1}), 1, 4).Draw(t, "stream")
 	}
+	if len(c.Stream) == 0 && rapid.IntRange(0, 3).Draw(t, "gaps") == 0 {
+		c.Gaps = rapid.SliceOfN(rapid.SampledFrom([]int{0, 1, 5, 20, 40, 60}), 1, 6).Draw(t, "gapMs")
+	}
 	if rapid.IntRange(0, 4).Draw(t, "dup") == 0 {
 		c.Dup = rapid.IntRange(1, 1000).Draw(t, "dupIdx")
 		c.DupAt = rapid.IntRange(0, 1000).Draw(t, "dupAt")
@@ -822,13 +851,14 @@ func genCase(t *rapid.T) Case {
 	return c
 }
 
-const ruleC10 = "1-3 packets (Data/Interest of an exact drawn size, biased to the one-frame boundary and to multiples of the fragment payload) sent through the real link-service send path at a drawn MTU 128..8800 with drawn options (fragmentation on/off, forwarder PIT token of 0/6/other length independent of the packet's own token, congestion mark, incoming-face indication, locally added congestion mark, or more than 64 KiB of earlier traffic on the face so that the sender's periodic look at its idle queue falls on the first packet), all frames fed to a second link service in a drawn permutation (optionally one fragment twice), directly or -- a quarter of the cases -- as a byte stream through readTlvStream in drawn read sizes (stream face), the delivered packets being compared again after the receiver has moved on. Non-trivial: >=1 packet sent as >=2 fragments and a non-identity receive order, or frames of >=2 packets interleaved"
+const ruleC10 = "1-3 packets (Data/Interest of an exact drawn size, biased to the one-frame boundary and to multiples of the fragment payload) sent through the real link-service send path at a drawn MTU 128..8800 with drawn options (fragmentation on/off, forwarder PIT token of 0/6/other length independent of the packet's own token, congestion mark, incoming-face indication, locally added congestion mark, or more than 64 KiB of earlier traffic on the face so that the sender's periodic look at its idle queue falls on the first packet), all frames fed to a second link service in a drawn permutation (optionally one fragment twice; optionally with 0..60 virtual ms passing before each frame, so that a long message is under reassembly for seconds while others begin), directly or -- a quarter of the cases -- as a byte stream through readTlvStream in drawn read sizes (stream face), the delivered packets being compared again after the receiver has moved on. Non-trivial: >=1 packet sent as >=2 fragments and a non-identity receive order, or frames of >=2 packets interleaved"
 
 func TestC10Frag(t *testing.T) {
 	rec := evid.New("C10", "TestC10Frag", ruleC10)
+	bubbleT = t
 	evid.Check(t, rec, genCase, execC10)
 }
 
-func TestC10FragReplay(t *testing.T) { evid.Replay(t, "TestC10Frag", execC10) }
+func TestC10FragReplay(t *testing.T) { bubbleT = t; evid.Replay(t, "TestC10Frag", execC10) }
 
-func TestC10FragRegress(t *testing.T) { evid.Regress(t, "C10", "TestC10Frag", execC10) }
+func TestC10FragRegress(t *testing.T) { bubbleT = t; evid.Regress(t, "C10", "TestC10Frag", execC10) }
